@@ -284,6 +284,60 @@ def drawn_cases(draw):
 
 
 
+
+# ------------------------------------------------------------------ retried commands (FastbootDevice with num_retries >= 1)
+def retry_cases():
+  for size in (1, CHUNK - 1, CHUNK, CHUNK + 1, 2 * CHUNK + 1):
+    for header in (0, 7, CHUNK):
+      for first in (['FAIL'], ['DATA!'], ['INFO', 'FAIL'], ['FAIL', 'FAIL']):
+        yield {'retry': 1, 'size': size, 'header': header, 'first': first, 'retries': len([x for x in first if x != 'INFO'])}
+
+
+def check_retry(case):
+  """The image is a file object positioned behind a vendor header (source_len given); the first attempt(s) fail before the
+  data phase, the device then accepts.  Every attempt announces the same size, and the accepted one transmits exactly the
+  image - the bytes from the position the caller handed over."""
+  import types  # pylint: disable=g-import-not-at-top
+  r = CaseResult()
+  m = fk.load()
+  fp = m.fastboot_protocol
+  fp.FASTBOOT_DOWNLOAD_CHUNK_SIZE_KB = 1
+  from openhtf.plugs.usb import fastboot_device  # pylint: disable=g-import-not-at-top
+  size, header = case['size'], case['header']
+  img = image(size)
+  stream = io.StringIO('H' * header + img)
+  stream.seek(header)
+  responses = []
+  for a in case['first']:
+    responses.append({'FAIL': 'FAILbusy', 'DATA!': 'DATA%08x' % (size + 1), 'INFO': 'INFOwait'}[a])
+  responses += ['DATA%08x' % size, 'OKAYdone']
+  dev = fk.ScriptedBootloader(responses)
+  saved_time = fastboot_device.time
+  fastboot_device.time = types.SimpleNamespace(sleep=lambda s_: None)      # the pause between attempts
+  try:
+    fd = fastboot_device.FastbootDevice.connect(dev, num_retries=case['retries'])
+    try:
+      got = ('ok', fd.download(stream, source_len=size))
+    except (Exception, fk.RunawayError) as e:  # pylint: disable=broad-except
+      got = ('exc', type(e).__name__, str(e)[:80])
+  finally:
+    fastboot_device.time = saved_time
+  r.nontrivial = header > 0
+  r.classes = ['retry', 'header:%d' % header, 'size:%d' % size, 'first:' + '+'.join(case['first'])]
+  cmds = [p for p in dev.packets if p.startswith('download:')]
+  data = [p for p in dev.packets if not p.startswith('download:')]
+  if got != ('ok', 'done'):
+    r.bad('C16/retry/unexpected-result', '%r: download() gave %r; packets %r' % (case, got, [p[:20] for p in dev.packets[:8]]))
+  if cmds != ['download:%08x' % size] * (case['retries'] + 1):
+    r.bad('C16/retry/command-packets', '%r: command packets %r' % (case, cmds))
+  if ''.join(data) != img:
+    r.bad('C16/retry/image-bytes', '%r: %d data packets carrying %d bytes, starting %r; the image has %d bytes starting %r' % (
+        case, len(data), len(''.join(data)), ''.join(data)[:12], size, img[:12]))
+  if any(len(p) > CHUNK for p in data):
+    r.bad('C16/retry/chunk-too-large', '%r: packet sizes %r' % (case, [len(p) for p in data]))
+  return r
+
+
 # ------------------------------------------------------------------ the chunk size as an operator configures it: the flag
 def flaginit_case(case):
   """case = {'flaginit': n_threads, 'kb': 1|2, 'plan': {...}}: n threads make their first use of the USB plugs at once (each
@@ -380,6 +434,7 @@ def plan(tier, seed):
   for i in range(4):
     jobs.append({'kind': 'hyp', 'name': 'hyp%d' % i, 'hseed': seed * 1000 + i, 'n': 800 if tier == 'quick' else 20000})
   jobs.append({'kind': 'flaginit', 'name': 'flaginit'})
+  jobs.append({'kind': 'retry', 'name': 'retry'})
   return jobs
 
 
@@ -388,6 +443,13 @@ def run_job(job, acct):
   if job['kind'] == '_regress':
     from vf import runner  # pylint: disable=g-import-not-at-top
     runner.run_regress(sys.modules[__name__], job, acct)
+  elif job['kind'] == 'retry':
+    for case in retry_cases():
+      r = check_retry(case)
+      acct.case(case, r.nontrivial, r.classes)
+      for sig, detail in r.violations:
+        (acct.known if sig in known else acct.violation)(sig, case, detail)
+    acct.exhaustive_parts.append('retried download through FastbootDevice: 5 sizes x 3 stream offsets x 4 failing first attempts')
   elif job['kind'] == 'flaginit':
     flaginit_setup()
     for nthreads in (2, 3):
@@ -422,6 +484,8 @@ def run_job(job, acct):
 
 
 def replay(case):
+  if case.get('retry'):
+    return check_retry(case).violations
   if case.get('flaginit'):
     flaginit_setup()
     return check_flaginit(case)[0].violations
